@@ -338,7 +338,19 @@ def run(M, rep, tier, only=None):
     # breadth-first order of Section.parent: candidates leave the work list at the head
     f = ctx.member("Section", "parent", "getters")
     if f is not None:
-        pops = [n for n in ast.walk(f.node) if isinstance(n, ast.Call) and isinstance(n.func, ast.Attribute) and n.func.attr in ("pop", "popleft")]
+        # the search may sit in the getter or in private helpers it was moved into (a generator that hands out the candidates)
+        fns, todo = [], [f]
+        while todo:
+            g_ = todo.pop()
+            if g_ in fns:
+                continue
+            fns.append(g_)
+            for q_ in ctx.cg.edges.get(g_.qual, ()):
+                h_ = M.funcs.get(q_)
+                if h_ is not None and h_.node.name.startswith("_") and not h_.node.name.startswith("__") and h_.module is f.module:
+                    todo.append(h_)
+        pops = [n for g_ in fns for n in ast.walk(g_.node)
+                if isinstance(n, ast.Call) and isinstance(n.func, ast.Attribute) and n.func.attr in ("pop", "popleft")]
         okp = bool(pops) and all((n.func.attr == "popleft") or (n.args and isinstance(n.args[0], ast.Constant) and n.args[0].value == 0) for n in pops)
         rep.check(R3, "Section.parent/order", okp, "candidate sections are not taken from the head of the work list (not breadth-first)",
                   site=f.file + ":%d" % f.node.lineno)
@@ -489,6 +501,17 @@ def referring(M, rep, ctx, R4, R5):
             rep.bad(R4, cn + ".referring_objects", "required mechanism not found")
         else:
             used = {n.attr[len("referring_"):] for n in ast.walk(ro.node) if isinstance(n, ast.Attribute) and n.attr.startswith("referring_")}
+            if set(fam.get(cn, {})) - used:
+                # not all named in the source text: which of the getters run on the abstract paths of the union (a loop over a
+                # table of kinds with getattr, a helper)
+                try:
+                    for p_ in explore(rctx.cfg, ro, cn, None, 6000):
+                        for e_ in p_.events:
+                            for kind_, g_ in fam.get(cn, {}).items():
+                                if g_.qual in e_.stack:
+                                    used.add(kind_)
+                except Budget:
+                    pass
             missing = sorted(set(fam.get(cn, {})) - used)
             rep.check(R4, cn + ".referring_objects", not missing, "%s.referring_objects leaves out referring_%s" % (cn, ", referring_".join(missing)),
                       site=ro.file + ":%d" % ro.node.lineno, what="union of %s" % sorted(used))
